@@ -28,6 +28,7 @@ type Replica struct {
 	Repo    *repository.GoGitRepo
 	Authors []identity.Interface // every identity of the world, as read by this replica
 	Handles map[string]*bug.Bug  // live handle per bug id, replaced by MergeResult.Entity like the cache does
+	Stale   bool                 // the replica was restarted with lowered clock files at some point
 }
 
 // RemoteNames are the bare remotes a world can have; every replica has all of the world's remotes configured.
@@ -37,16 +38,18 @@ var RemoteNames = []string{"origin", "alt"}
 // with two remotes two replicas can each publish their own branch and fetch the other's, so both
 // merge the same pair of heads).
 type World struct {
-	Dir        string
-	RemotePath string   // path of "origin"
-	Remotes    []string // names
+	Dir         string
+	RemotePath  string   // path of "origin"
+	Remotes     []string // names
 	RemotePaths map[string]string
-	IdEdits    int // identity versions committed by idedit actions
-	GCs        int // gc actions executed
-	Replicas   []*Replica
-	AuthorIds  []string
-	Seed       uint64
-	opSeq      int
+	IdEdits     int // identity versions committed by idedit actions
+	GCs         int // gc actions executed
+	PullAPIs    int // pulls through bug.Pull / identity.Pull
+	StaleClocks int // restarts with lowered clock files
+	Replicas    []*Replica
+	AuthorIds   []string
+	Seed        uint64
+	opSeq       int
 
 	// model
 	BugIds    []string                       // creation order
@@ -202,8 +205,8 @@ func (a Action) String() string {
 	if a.Kind == "idedit" {
 		return fmt.Sprintf("idedit(r%d,+%d)", a.R, a.N)
 	}
-	if a.Kind == "gc" {
-		return fmt.Sprintf("gc(r%d)", a.R)
+	if a.Kind == "gc" || a.Kind == "staleclock" {
+		return fmt.Sprintf("%s(r%d)", a.Kind, a.R)
 	}
 	return fmt.Sprintf("%s(r%d,%s)", a.Kind, a.R, RemoteNames[a.Rem%len(RemoteNames)])
 }
@@ -217,10 +220,10 @@ func GenActions(nReplicas, minLen, maxLen, nFiles int) *rapid.Generator[[]Action
 // GenActionsR is GenActions for a world with nRemotes remotes; it also draws edits of the replicas' own identities.
 func GenActionsR(nReplicas, nRemotes, minLen, maxLen, nFiles int) *rapid.Generator[[]Action] {
 	one := rapid.Custom(func(t *rapid.T) Action {
-		kind := rapid.SampledFrom([]string{"new", "edit", "edit", "edit", "edit", "edit", "edit", "push", "push", "push", "pull", "pull", "pull", "pull", "idedit", "gc"}).Draw(t, "kind")
+		kind := rapid.SampledFrom([]string{"new", "edit", "edit", "edit", "edit", "edit", "edit", "push", "push", "push", "pull", "pull", "pull", "pull", "idedit", "gc", "fetch", "pullapi", "staleclock"}).Draw(t, "kind")
 		a := Action{Kind: kind, R: rapid.IntRange(0, nReplicas-1).Draw(t, "r")}
 		switch kind {
-		case "push", "pull":
+		case "push", "pull", "fetch", "pullapi":
 			if nRemotes > 1 {
 				a.Rem = rapid.IntRange(0, nRemotes-1).Draw(t, "rem")
 			}
@@ -350,6 +353,18 @@ func (w *World) Exec(a Action) error {
 		err = w.editIdentity(r, a.N)
 	case "gc":
 		err = w.gc(r)
+	case "fetch":
+		// fetch without merging: the remote-tracking refs run ahead of what is merged locally
+		if _, err = identity.Fetch(r.Repo, w.remoteName(a.Rem)); err == nil {
+			_, err = bug.Fetch(r.Repo, w.remoteName(a.Rem))
+		}
+		if err != nil {
+			err = &ExecError{"fetch/" + Normalize(err.Error()), err.Error()}
+		}
+	case "pullapi":
+		err = w.pullAPI(r, w.remoteName(a.Rem))
+	case "staleclock":
+		err = w.staleClocks(r, a.N)
 	default:
 		panic("unknown action " + a.Kind)
 	}
@@ -476,6 +491,12 @@ func (w *World) editIdentity(r *Replica, n int) error {
 			return &ExecError{"identity-mutate/" + Normalize(err.Error()), err.Error()}
 		}
 		if err := i.Commit(r.Repo); err != nil {
+			if r.Stale && strings.Contains(err.Error(), "lamport clock") {
+				// after a restart with stale clock files a new version would record times below those of the previous
+				// version: git-bug refuses to commit it (nothing is stored), which is the documented rule for identities
+				w.Rejected++
+				return nil
+			}
 			return &ExecError{"identity-commit/" + Normalize(err.Error()), err.Error()}
 		}
 	}
@@ -499,6 +520,69 @@ func (w *World) gc(r *Replica) error {
 	return nil
 }
 
+// pullAPI pulls through the packaged functions identity.Pull and bug.Pull ("Fetch + MergeAll"). After they
+// return without error, everything the remote-tracking refs hold is merged into the local bugs.
+func (w *World) pullAPI(r *Replica, remoteName string) error {
+	if err := identity.Pull(r.Repo, remoteName); err != nil {
+		return &ExecError{"identity.Pull/" + Normalize(err.Error()), err.Error()}
+	}
+	if err := bug.Pull(r.Repo, Resolvers(r.Repo), remoteName, r.Authors[r.Idx]); err != nil {
+		return &ExecError{"bug.Pull/" + Normalize(err.Error()), err.Error()}
+	}
+	r.Handles = map[string]*bug.Bug{} // the merged entities are not handed back: read again before editing
+	prefix := "refs/remotes/" + remoteName + "/bugs/"
+	for ref := range refsUnder(r.Repo, prefix) {
+		id := strings.TrimPrefix(ref, prefix)
+		rd, err := ondisk.ReadDAG(r.Repo, ref)
+		if err != nil {
+			continue
+		}
+		ld, err := ondisk.ReadDAG(r.Repo, "refs/bugs/"+id)
+		if err != nil {
+			return &ExecError{"pull-api-did-not-merge-fetched-bugs/absent", fmt.Sprintf("replica %d: bug.Pull(%s) returned nil, bug %s of the remote does not exist locally", r.Idx, remoteName, id)}
+		}
+		local := setOf(ld.OpIds())
+		for _, x := range rd.OpIds() {
+			if !local[x] {
+				return &ExecError{"pull-api-did-not-merge-fetched-bugs/behind", fmt.Sprintf("replica %d: bug.Pull(%s) returned nil, bug %s lacks operation %s that the fetched remote history holds", r.Idx, remoteName, id, x)}
+			}
+		}
+	}
+	w.PullAPIs++
+	return nil
+}
+
+// staleClocks models a restart with clock files that are older than the stored data (a restored backup, a
+// copied .git directory): the handle is closed, every clock file is rewritten with a lower value, the
+// repository is opened again and every in-memory bug is dropped (a new process reads before it edits).
+func (w *World) staleClocks(r *Replica, n int) error {
+	clocks, err := r.Repo.AllClocks()
+	if err != nil {
+		return err
+	}
+	_ = r.Repo.Close()
+	dir := filepath.Join(r.Path, ".git", "git-bug", "clocks")
+	for name, c := range clocks {
+		v := uint64(c.Time())
+		nv := v / uint64(n+2)
+		if nv < 1 {
+			nv = 1
+		}
+		if err := os.WriteFile(filepath.Join(dir, name), []byte(fmt.Sprintf("%d", nv)), 0o644); err != nil {
+			return err
+		}
+	}
+	repo, err := repository.OpenGoGitRepo(r.Path, "git-bug", nil)
+	if err != nil {
+		return &ExecError{"reopen-with-stale-clocks/" + Normalize(err.Error()), err.Error()}
+	}
+	r.Repo = repo
+	r.Handles = map[string]*bug.Bug{}
+	r.Stale = true
+	w.StaleClocks++
+	return nil
+}
+
 // Push pushes identities then bugs to "origin". A rejected (non-fast-forward) push is legal.
 func (w *World) Push(r *Replica) error { return w.PushTo(r, "origin") }
 
@@ -519,22 +603,22 @@ func isPushRejection(err error) bool {
 
 // PullReport is what a pull did, for the C02 oracle.
 type PullReport struct {
-	Replica   int
-	Remote    string
+	Replica int
+	Remote  string
 	// identities: version id chains (independent reader) and the name carried by the last version
 	IdPre, IdRemote, IdPost map[string][]string
-	IdEntityName            map[string]string // name of the entity handed back with new/updated
-	IdStoredName            map[string]string // name of the identity as stored after the merge
-	Pre       map[string][]string // bug id -> op ids readable before (real reader)
-	PreRefs   map[string]string
-	RemoteOps map[string][]string // bug id -> op ids on the bare remote right after the fetch
-	RemoteErr map[string]string
-	Results   []entity.MergeResult
-	Post      map[string][]string
-	PostErr   map[string]string
-	PostRefs  map[string]string
-	Entities  map[string][]string // bug id -> op ids of MergeResult.Entity for new/updated
-	IdResults []entity.MergeResult
+	IdEntityName            map[string]string   // name of the entity handed back with new/updated
+	IdStoredName            map[string]string   // name of the identity as stored after the merge
+	Pre                     map[string][]string // bug id -> op ids readable before (real reader)
+	PreRefs                 map[string]string
+	RemoteOps               map[string][]string // bug id -> op ids on the bare remote right after the fetch
+	RemoteErr               map[string]string
+	Results                 []entity.MergeResult
+	Post                    map[string][]string
+	PostErr                 map[string]string
+	PostRefs                map[string]string
+	Entities                map[string][]string // bug id -> op ids of MergeResult.Entity for new/updated
+	IdResults               []entity.MergeResult
 }
 
 func refsUnder(repo repository.RepoData, prefix string) map[string]string {
